@@ -196,6 +196,69 @@ func (c *Ctx) isLatch(info *types.Info, loop ast.Node, cd cond, at ast.Node) (bo
 		}
 	}
 	for _, side := range [][2]ast.Expr{{be.X, be.Y}, {be.Y, be.X}} {
+		// a counter kept in a field of a local record (ids.nnodes): every store into that field,
+		// anywhere in the repository, is an increment
+		if sel, ok := unparen(side[0]).(*ast.SelectorExpr); ok {
+			if fv, ok := info.Uses[sel.Sel].(*types.Var); ok && fv.IsField() {
+				if tv, ok := info.Types[side[1]]; ok && tv.Value != nil {
+					val := tv.Value.String()
+					swapped := side[0] == be.Y
+					o2 := op
+					if swapped {
+						switch o2 {
+						case token.LSS:
+							o2 = token.GTR
+						case token.GTR:
+							o2 = token.LSS
+						case token.LEQ:
+							o2 = token.GEQ
+						case token.GEQ:
+							o2 = token.LEQ
+						}
+					}
+					if (o2 == token.EQL && val == "0") || (o2 == token.LEQ && val == "0") || (o2 == token.LSS && val == "1") {
+						onlyInc, nInc := true, 0
+						for _, p := range c.All {
+							for _, f := range p.Syntax {
+								ast.Inspect(f, func(m ast.Node) bool {
+									switch x := m.(type) {
+									case *ast.IncDecStmt:
+										if s2, ok := unparen(x.X).(*ast.SelectorExpr); ok && p.TypesInfo.Uses[s2.Sel] == fv {
+											if x.Tok == token.INC {
+												nInc++
+											} else {
+												onlyInc = false
+											}
+										}
+									case *ast.AssignStmt:
+										for _, l := range x.Lhs {
+											if s2, ok := unparen(l).(*ast.SelectorExpr); ok && p.TypesInfo.Uses[s2.Sel] == fv {
+												if x.Tok == token.ADD_ASSIGN {
+													nInc++
+												} else {
+													onlyInc = false
+												}
+											}
+										}
+									case *ast.UnaryExpr:
+										if x.Op == token.AND {
+											if s2, ok := unparen(x.X).(*ast.SelectorExpr); ok && p.TypesInfo.Uses[s2.Sel] == fv {
+												onlyInc = false
+											}
+										}
+									}
+									return true
+								})
+							}
+						}
+						if onlyInc && nInc > 0 {
+							return true, "counter field " + fv.Name() + " is only ever incremented"
+						}
+						return false, "counter field " + fv.Name() + " is not a pure increment counter"
+					}
+				}
+			}
+		}
 		v := identObj(info, side[0])
 		if v == nil {
 			continue
@@ -242,12 +305,53 @@ func (c *Ctx) isLatch(info *types.Info, loop ast.Node, cd cond, at ast.Node) (bo
 			if zeroTest {
 				onlyInc := true
 				nInc := 0
-				forAssignsTo(info, loop, v, func(rhs ast.Expr, multi, incdec bool) {
-					if incdec {
-						nInc++
-						return
+				// &v handed to a helper that only increments through the pointer counts as an increment
+				incViaPtr := map[ast.Node]bool{}
+				for _, call := range callsIn(loop, true) {
+					g := calleeOf(info, call)
+					if g == nil || !inRepo(g) {
+						continue
 					}
-					onlyInc = false
+					for i, a := range call.Args {
+						u, ok := unparen(a).(*ast.UnaryExpr)
+						if !ok || u.Op != token.AND || identObj(info, u.X) != v {
+							continue
+						}
+						if c.onlyIncrementsThrough(g, i) {
+							incViaPtr[u] = true
+							nInc++
+						}
+					}
+				}
+				ast.Inspect(loop, func(m ast.Node) bool {
+					switch x := m.(type) {
+					case *ast.UnaryExpr:
+						if incViaPtr[x] {
+							return false
+						}
+						if x.Op == token.AND && identObj(info, x.X) == v {
+							onlyInc = false
+						}
+					case *ast.IncDecStmt:
+						if identObj(info, x.X) == v {
+							if x.Tok == token.INC {
+								nInc++
+							} else {
+								onlyInc = false
+							}
+						}
+					case *ast.AssignStmt:
+						for _, l := range x.Lhs {
+							if identObj(info, l) == v {
+								if x.Tok == token.ADD_ASSIGN {
+									nInc++
+								} else if !(x.Tok == token.DEFINE && info.Defs[unparen(l).(*ast.Ident)] != nil && info.Defs[unparen(l).(*ast.Ident)] != v) {
+									onlyInc = false
+								}
+							}
+						}
+					}
+					return true
 				})
 				if onlyInc && nInc > 0 {
 					return true, "counter " + name + " is only ever incremented in the loop"
@@ -3487,4 +3591,72 @@ func (c *Ctx) hashAfterClear(rule string) (n int) {
 		}
 	}
 	return
+}
+
+// onlyIncrementsThrough: every use of the i-th parameter (a pointer to an integer) of g is a read
+// `*p` or an increment `(*p)++` / `*p += k`; the pointer is not stored, passed on or assigned through.
+func (c *Ctx) onlyIncrementsThrough(g *types.Func, i int) bool {
+	gi := c.FuncOfObj(g)
+	if gi == nil || gi.Decl.Body == nil {
+		return false
+	}
+	info := gi.Pkg.TypesInfo
+	p := paramObj(info, gi.Decl, i)
+	if p == nil {
+		return false
+	}
+	ok := true
+	walkStack(gi.Decl.Body, func(m ast.Node, st []ast.Node) bool {
+		id, isId := m.(*ast.Ident)
+		if !isId || identObj(info, id) != p {
+			return true
+		}
+		// must appear as *p (possibly parenthesised)
+		k := len(st) - 1
+		for k >= 0 {
+			if _, isParen := st[k].(*ast.ParenExpr); isParen {
+				k--
+				continue
+			}
+			break
+		}
+		if k < 0 {
+			ok = false
+			return true
+		}
+		star, isStar := st[k].(*ast.StarExpr)
+		if !isStar {
+			ok = false
+			return true
+		}
+		// what is done with *p
+		j := k - 1
+		for j >= 0 {
+			if _, isParen := st[j].(*ast.ParenExpr); isParen {
+				j--
+				continue
+			}
+			break
+		}
+		if j >= 0 {
+			switch x := st[j].(type) {
+			case *ast.IncDecStmt:
+				if x.Tok != token.INC {
+					ok = false
+				}
+			case *ast.AssignStmt:
+				for _, l := range x.Lhs {
+					if unparen(l) == ast.Expr(star) && x.Tok != token.ADD_ASSIGN {
+						ok = false
+					}
+				}
+			case *ast.UnaryExpr:
+				if x.Op == token.AND {
+					ok = false
+				}
+			}
+		}
+		return true
+	})
+	return ok
 }
